@@ -578,6 +578,8 @@ func runC15(r *Run) {
 		}
 	}
 
+	r.Rule("C15.6", "the sign bytes are the whole content the scheme wrote: the tmconsensus helpers return the entire buffer, or, where they cut it at the scheme's reported count, every write of the shipped scheme is added into that count")
+	signBytesAreWholeContent(r, "C15.6")
 	// ---- C15.5 domain separation
 	heads := map[string]map[string]bool{}
 	for kind, mname := range map[string]string{"proposal": "WriteProposalSigningContent", "prevote": "WritePrevoteSigningContent", "precommit": "WritePrecommitSigningContent"} {
@@ -736,9 +738,13 @@ func fmtHeads(w *World, fn *ssa.Function, env map[int]string, out map[string]boo
 					}
 				}
 			}
-			// only formats that begin a message define a leading line: skip continuation sections (annotations)
-			if strings.HasPrefix(fstr, "UserAnnotation") || strings.HasPrefix(fstr, "DriverAnnotation") {
-				return
+			// only a write that can be the first one of the message defines a leading line: a write
+			// dominated by an earlier write of the same function is a continuation section
+			// (annotations), whatever its label or loop structure
+			for _, prev := range fmtWrites(a) {
+				if prev != in && Dominates(prev, in) {
+					return
+				}
 			}
 			out[head] = true
 			return
@@ -817,4 +823,17 @@ func sameSliceVar(a, b ssa.Value) bool {
 		}
 	}
 	return false
+}
+
+// fmtWrites lists the formatted-write calls of a function.
+func fmtWrites(a *FnA) []ssa.Instruction {
+	var out []ssa.Instruction
+	a.Instrs(func(in ssa.Instruction) {
+		if c := callCommon(in); c != nil {
+			if _, n := calleeName(c); n == "fmt.Fprintf" || n == "fmt.Fprint" || n == "io.WriteString" {
+				out = append(out, in)
+			}
+		}
+	})
+	return out
 }
